@@ -113,6 +113,7 @@ where
         &mut self,
         from_program: &read::IncompleteLineProgram<R>,
         files: &mut Vec<write::FileId>,
+        primary_file: &mut Option<(write::LineString, Option<write::FileInfo>)>,
     ) -> write::ConvertResult<write::LineProgram> {
         let from_header = from_program.header();
         let encoding = from_header.encoding();
@@ -145,6 +146,8 @@ where
         if from_header.line_base() > 0 {
             return Err(write::ConvertError::InvalidLineBase);
         }
+        // In DWARF 5 a row may name file 0, the primary source file of the unit.
+        *primary_file = Some((comp_name.clone(), comp_file_info));
         let mut program = write::LineProgram::new(
             encoding,
             from_header.line_encoding(),
@@ -196,9 +199,11 @@ where
         mut from_program: read::IncompleteLineProgram<R>,
     ) -> write::ConvertResult<write::LineProgram> {
         let mut files = Vec::new();
+        let mut primary_file = None;
+        let mut primary_file_id = None;
         // Create mappings in case the source has duplicate files or directories.
         let mut program = self
-            .convert_line_program_header(&from_program, &mut files)
+            .convert_line_program_header(&from_program, &mut files, &mut primary_file)
             .expect("line program header cannot be converted");
 
         // We can't use the `from_program.rows()` because that wouldn't let
@@ -262,10 +267,28 @@ where
                                         if file > files.len() as u64 {
                                             return Err(write::ConvertError::InvalidFileIndex);
                                         }
-                                        if file == 0 && program.version() <= 4 {
-                                            return Err(write::ConvertError::InvalidFileIndex);
+                                        if file == 0 {
+                                            if program.version() <= 4 {
+                                                return Err(write::ConvertError::InvalidFileIndex);
+                                            }
+                                            // DWARF 5: file 0 is the primary source file. The
+                                            // writer has no id for it, so register it (once) as
+                                            // an ordinary file entry and refer to that.
+                                            match (primary_file_id, &primary_file) {
+                                                (Some(id), _) => id,
+                                                (None, Some((name, info))) => {
+                                                    let dir = program.default_directory();
+                                                    let id = program.add_file(name.clone(), dir, *info);
+                                                    primary_file_id = Some(id);
+                                                    id
+                                                }
+                                                (None, None) => {
+                                                    return Err(write::ConvertError::InvalidFileIndex)
+                                                }
+                                            }
+                                        } else {
+                                            files[(file - 1) as usize]
                                         }
-                                        files[(file - 1) as usize]
                                     };
                                     program.row().line = match from_row.line() {
                                         Some(line) => line.get(),
